@@ -99,12 +99,12 @@ static int imm_tok(struct instr *instr_buffer, char *imme) {
   instr_buffer->imm = true;
   int base = RADIX_10;
   imme = strtok_r(imme, " ", &saved_saved);
-  if (imme[1] == 'x' || (imme[1] != '\0' && imme[2] == 'x')) {
+  if (imme[1] == 'x' || (imme[1] != '\0' && imme[2] == 'x'))
     base = RADIX_16;
-    if ((instr_buffer->assembly_opt & SMART_MOV_IMM) &&
-        imme_str_len < STR_HEX_64)
-      instr_buffer->assembly_opt |= NASM_MOV_IMM;
-  }
+  // SMART: only a hexadecimal literal padded to 64 bits keeps the register
+  if ((instr_buffer->assembly_opt & SMART_MOV_IMM) &&
+      !(base == RADIX_16 && imme_str_len >= STR_HEX_64))
+    instr_buffer->assembly_opt |= NASM_MOV_IMM;
   // convert string to unsigned long for immediate representation
   char *end = NULL;
   instr_buffer->cons = strtoul(imme, &end, base);
